@@ -248,10 +248,12 @@ func (k *Kernel) Steps() int { return k.steps }
 //go:norace
 func (k *Kernel) nodeLocked(name string) *Node {
 	for _, n := range k.nodes {
-		if n.Name == name {
+		if n.Name == name && !n.dead {
 			return n
 		}
 	}
+	// (a dead node of that name stays dead: a program started again under the same
+	// name is a new incarnation with nothing but the name in common)
 	n := &Node{Name: name}
 	k.nodes = append(k.nodes, n)
 	return n
